@@ -2,7 +2,7 @@
 pub trait FixedBytesRepr {
     spec fn bytes_view(&self) -> Seq<u8>;
     fn as_fixed_bytes(&self) -> (r: &[u8; 32]) ensures r@ == self.bytes_view();
-    fn from_fixed_bytes(bytes: [u8; 32]) -> Self where Self: Sized;
+    fn from_fixed_bytes(bytes: [u8; 32]) -> (r: Self) where Self: Sized ensures r.bytes_view() == bytes@;
 }
 pub trait IsIdentity {
     spec fn is_identity_spec(&self) -> bool;
